@@ -1,7 +1,7 @@
 #!/usr/bin/env python3
 """Binding self-test (DESIGN 3.6): the trace specifications must accept a faithfully recorded real run and reject it
-after ONE recorded field is corrupted.  Covers the ledger engine (Trace_Ledger) and the calls engine (Trace_Bootstrap,
-Trace_NationalSummary).  Exit 0 = the machinery discriminates; exit 2 otherwise."""
+after ONE recorded field is corrupted.  Covers the ledger engine (Trace_Ledger), the calls engine (Trace_Bootstrap,
+Trace_NationalSummary) and the supplementary bootstrap pipeline model (Trace_BootstrapRun).  Exit 0 = the machinery discriminates; exit 2 otherwise."""
 import copy
 import json
 import os
@@ -87,6 +87,26 @@ def main():
     bad["earlier"]["lower"] = bad["obs"]["pred"]
     ok, cl = verdict("Trace_NationalSummary", "Trace_NationalSummary.cfg", [bad])
     allok &= expect("national summary: a triple that depends on an earlier round of calls rejected", ok, False, cl, "summary_independent_of_an_earlier_round_of_calls")
+    # S09 BootstrapRun: one recorded model object of a real bootstrap client run
+    from harness import bootrun
+
+    recs = bootrun.job_random(3)["runs"]
+    ok, cl = verdict("Trace_BootstrapRun", "Trace_BootstrapRun.cfg", recs[:1])
+    allok &= expect("bootstrap run: recorded pipeline accepted", ok, True)
+    for field, value, clause in (("runs_on_object", 2, "pipeline_ran_once_on_the_object"), ("global_rng_used", True, "process_wide_generators_untouched"),
+                                 ("eps_count", 99, "contest_effect_only_with_two_training_units")):
+        bad = copy.deepcopy(recs[:1])
+        bad[0][field] = value
+        ok, cl = verdict("Trace_BootstrapRun", "Trace_BootstrapRun.cfg", bad)
+        allok &= expect(f"bootstrap run: {field} corrupted -> rejected", ok, False, cl, clause)
+    bad = copy.deepcopy(recs[:1])
+    bad[0]["facts"]["y_boot_clipped"] = False
+    ok, cl = verdict("Trace_BootstrapRun", "Trace_BootstrapRun.cfg", bad)
+    allok &= expect("bootstrap run: a stored factor outside its clipping bounds rejected", ok, False, cl, "stored_factors_inside_the_clipping_bounds")
+    bad = copy.deepcopy(recs[:1])
+    bad[0]["shapes"]["errors_B_2"] = [bad[0]["shapes"]["errors_B_2"][0] + 1, bad[0]["shapes"]["errors_B_2"][1]]
+    ok, cl = verdict("Trace_BootstrapRun", "Trace_BootstrapRun.cfg", bad)
+    allok &= expect("bootstrap run: a stored matrix with one row too many rejected", ok, False, cl, "stored_matrices_have_one_row_per_outstanding_unit_and_one_column_per_draw")
     print("binding self-test:", "passed" if allok else "FAILED")
     return 0 if allok else 2
 
